@@ -60,12 +60,19 @@ def _impl():
            {'ansi': z.nm_to_ansi_j, 'fringe': z.nm_to_fringe}
 
 
+_DEAD = set()     # conventions whose implementation stopped returning: never wait for them twice
+
+
 def _call(f, *args, limit=20.0):
     """('ok', value) | ('raised', text) | ('timeout', text); value canonicalised to a tuple of Python ints"""
+    name = getattr(f, '__name__', '')
+    if name in _DEAD:
+        return 'timeout', 'not called again after an earlier call did not return'
     try:
         with _limit(limit):
             r = f(*args)
     except _Timeout:
+        _DEAD.add(name)
         return 'timeout', f'no result within {limit} s'
     except Exception as ex:   # noqa
         return 'raised', f'{type(ex).__name__}: {ex}'
@@ -230,31 +237,36 @@ def correspondence(ctx):
         lo = FIRST[conv]
         real = np.zeros((J + 1 - lo, 2), dtype=np.int64)
         failed_calls = 0
+        broken = False
         for a, b in _chunks(lo, J + 1, CH):
             model = np.array(next(rep).split(), dtype=np.int64).reshape(-1, 2)
+            if broken:           # the implementation already failed to return on this convention: do not wait again
+                real[a - lo:b - lo] = model
+                continue
             try:
                 with _limit(ctx.scale(120, 900)):
                     got = [f(j) for j in range(a, b)]
-                arr = np.array(got, dtype=np.int64).reshape(-1, 2)
-                if any(type(v) is not int for v in got[0]) or any(type(v) is not int for v in got[-1]):
-                    raise TypeError(f'result components are {type(got[0][0]).__name__}, {type(got[0][1]).__name__}, not int')
-            except BaseException as ex:   # noqa  (slow path: find the first index that fails)
+                raw = np.array(got)
+                if raw.dtype.kind not in 'iu' and not (raw.dtype.kind == 'f' and (raw == np.floor(raw)).all()):
+                    raise TypeError('non-integer results')      # located index by index below
+                arr = raw.astype(np.int64).reshape(-1, 2)
+            except BaseException as ex:   # noqa  (slow path: find the first indices that fail)
                 if isinstance(ex, KeyboardInterrupt):
                     raise
-                arr = np.zeros((b - a, 2), dtype=np.int64)
+                arr = model.copy()        # keeps the array predicates meaningful for the indices not re-run
                 for j in range(a, b):
-                    st, val = _call(f, j, limit=10.0)
+                    st, val = _call(f, j, limit=5.0)
                     if st == 'ok' and len(val) == 2:
                         arr[j - a] = val
-                    else:
-                        failed_calls += 1
-                        if failed_calls <= 3:
-                            mm = tuple(int(x) for x in model[j - a])
-                            ctx.disagree(conv, {'j': j}, f'{st}: {val}', list(mm))
-                            ctx.pred_fail(conv, {'j': j}, f'{conv}({j}) {st}: {val}')
-                        arr[j - a] = model[j - a]      # keep the array predicates meaningful
-                        if failed_calls > 50:
-                            break
+                        continue
+                    failed_calls += 1
+                    mm = tuple(int(x) for x in model[j - a])
+                    ctx.disagree(conv, {'j': j}, f'{st}: {val}', list(mm))
+                    ctx.pred_fail(conv, {'j': j}, f'{conv}({j}) {st}: {val}')
+                    if st == 'timeout' or failed_calls >= 3:
+                        broken = True
+                        ctx.notes.append(f'{conv}: sweep abandoned after {failed_calls} failing calls (first at the recorded indices)')
+                        break
             real[a - lo:b - lo] = arr
             diff = np.flatnonzero((arr != model).any(axis=1))
             for k in diff[:3]:
@@ -281,7 +293,7 @@ def correspondence(ctx):
                     r = g(n, m)
                 except Exception as ex:   # noqa
                     r = f'raised {type(ex).__name__}: {ex}'
-                if r != j or type(r) is not int:
+                if not (isinstance(r, (int, np.integer)) and r == j):
                     nbad += 1
                     if nbad <= 3:
                         ctx.pred_fail(f'{conv}_roundtrip', {'j': j}, f'nm_to_{conv}{"_j" if conv == "ansi" else ""}(*{conv}({j})) = {r!r}, expected {j}')
@@ -406,6 +418,7 @@ def _first_failure(conv, f, g, hi):
 
 def search(ctx, hints):
     fwd, inv = _impl()
+    _DEAD.clear()
     # corpus / hints first
     for pf in hints.get('pred_failures', []):
         c = pf['case']
@@ -438,6 +451,7 @@ def search(ctx, hints):
 
 def replay(inp):
     fwd, inv = _impl()
+    _DEAD.clear()
     item, c = inp['item'], inp['input']
     conv = item.split('_')[0]
     print('replaying', item, c)
